@@ -227,6 +227,17 @@ def run(case):
     cell("mul", "second", "t0", lambda: torch.mul(torch.tensor(3.0, dtype=DT), op), lambda: torch.tensor(3.0, dtype=DT) * op, lambda: 3.0 * dense)
     cell("isclose", "second", "tensor", lambda: torch.isclose(dense, op).to(DT), None, lambda: torch.isclose(dense, dense).to(DT))
     cell("truediv", "first", "scalar", lambda: op / 4.0, lambda: op.div(4.0), lambda: dense / 4.0)
+    # ---- extra positional / keyword arguments must reach the implementation in both operand orders -------------------
+    near = dense + 0.05
+    for pos, mk in (("first", lambda *a, **k: torch.isclose(op, near, *a, **k)), ("second", lambda *a, **k: torch.isclose(near, op, *a, **k))):
+        ref = (lambda *a, **k: torch.isclose(dense, near, *a, **k)) if pos == "first" else (lambda *a, **k: torch.isclose(near, dense, *a, **k))
+        cell("isclose", pos, "default-tol", lambda mk=mk: mk().to(DT), None, lambda ref=ref: ref().to(DT))
+        cell("isclose", pos, "positional rtol, atol", lambda mk=mk: mk(0.0, 0.1).to(DT), None, lambda ref=ref: ref(0.0, 0.1).to(DT))
+        cell("isclose", pos, "positional rtol only", lambda mk=mk: mk(0.5).to(DT), None, lambda ref=ref: ref(0.5).to(DT))
+        cell("isclose", pos, "keyword atol", lambda mk=mk: mk(atol=0.1).to(DT), None, lambda ref=ref: ref(atol=0.1).to(DT))
+        cell("isclose", pos, "keyword rtol, atol", lambda mk=mk: mk(rtol=0.0, atol=0.01).to(DT), None, lambda ref=ref: ref(rtol=0.0, atol=0.01).to(DT))
+    cell("add", "second", "alpha", lambda: torch.add(T, op, alpha=3.0), None, lambda: torch.add(T, dense, alpha=3.0))
+    cell("sub", "second", "alpha", lambda: torch.sub(T, op, alpha=3.0), None, lambda: torch.sub(T, dense, alpha=3.0))
     return result(sub=subs, trans=2 * len(subs) + 1)
 
 
